@@ -4903,6 +4903,8 @@ class PyCdlib:
             old_inode = None
             old_length = self.logical_block_size
         else:
+            if old_rec.is_dir():
+                raise pycdlibexception.PyCdlibInvalidInput('Cannot make a hard link to a directory')
             old_inode = old_rec.inode
             old_length = old_rec.get_data_length()
 
